@@ -35,4 +35,10 @@ META = {
                     "documented embedding, lifts/projections as homomorphisms against explicit matrix embeddings, C1 factorisation, rot_x/y/z vs expm, "
                     "quaternion/isometry/complex/Euler (12 conventions) round trips, SO2 angle ranges and congruence incl. signed zeros and atan2 cuts.",
             "note": _ALG_NOTE, "technique": "runtime monitoring: differential + reference-model oracle over hostile inputs, ASan/UBSan"},
+    "C20": {"text": "Exploration + exhaustive sub-sweep: all basis matrices for K = 0..10 against long-double definitions (binomials, Cox-de Boor, "
+                    "recurrences, cos(n acos x)), LGR exactness for 1..16 nodes, integrate_absolute_polynomial against exact piecewise antiderivatives "
+                    "on hostile coefficient strata, binary_interval_search exhaustively on all sorted ranges of length <= 8 over 5 letters x 22 queries "
+                    "x 3 element types plus random clustered ranges under UBSan (pivot cast).",
+            "note": "Definitions re-implemented in long double in the harness; UBSan/ASan runtimes; sampled executions (search sweep exhaustive up to length 8).",
+            "technique": "runtime monitoring: definition-level oracle, exhaustive small-scope sweep for the search, ASan/UBSan"},
 }
